@@ -198,6 +198,19 @@ CHECKS["C18"] = dict(
          "program without the wrapper (completions, payload ids, stop reaching the wrapped leaf, declared queries).",
     note=EXPR_NOTE)
 
+CHECKS["C14"] = dict(
+    level="exploration", design="5 C14",
+    technique="runtime monitoring under stress: run()-thread identity of remotely scheduled items with idle/wake bursts, "
+              "byte-stream integrity of unique 8-byte counters through pipes/files, sentinel-filled exactly-sized heap buffers "
+              "freed after each operation (stale completions = ASan reports), cancellation before start / parked / racing "
+              "readiness, EPIPE error code, run(stop_token) return, /proc descriptor count; ASan and TSan, delay injection at the remote-queue sites",
+    text="On io_epoll_context (pipes) and io_uring_context (files): items scheduled from other threads must run on the "
+         "thread inside run() and none may be lost across idle gaps; each read/write completes exactly once with the number "
+         "of bytes actually transferred and the bytes received equal the bytes sent; a cancelled read completes with done, "
+         "does not touch its buffer and leaves no registration behind (later data goes to later reads); a failing write "
+         "reports the OS error; run() returns after stop and the process's descriptor count returns to its initial value.",
+    note=MT_NOTE + " Kernel behaviour is trusted; sockets are not exercised.")
+
 NOT_YET = "check not built yet (construction in progress, see DESIGN.md section 10)"
 
 
